@@ -358,6 +358,8 @@ def main(ctx):
     mult = 3 if not ctx.proof.ok else 1
     import c03_mpsobj
     mpsobj_handle = c03_mpsobj.start(ctx, mult=mult)     # stream mps-object: runs in the background next to the other streams
+    import c03_mpoobj
+    mpoobj_handle = c03_mpoobj.start(ctx, mult=mult)     # stream mpo-object (sites / MPOs / graphs / models): background, too
     nh = ctx.pick(600, 5000) * mult
     cases = [c['case'] for c in common.corpus_cases('C03') if c.get('stream') == 'history']
     replay_doc = None
@@ -483,6 +485,8 @@ def main(ctx):
     c03_mpshist.run_stream(ctx, mult=mult)
     # ---- whole-object fingerprints of every live MPS/MPO around every public call (finite, infinite, segment; charge sectors/gauges)
     c03_mpsobj.finish(ctx, mpsobj_handle)
+    # ---- whole-object fingerprints of the shared Site, lattice, MPS, every MPO / MPOGraph / term collection / model around every call
+    c03_mpoobj.finish(ctx, mpoobj_handle)
     ctx.assumptions += [
         'C03 store model (coq/Model/Store.v): ten heap transformers (new, copy deep/shallow, buffer-writing and rebinding in-place methods, '
         'iproject, unary copy-then-modify, scale_axis, add, tensordot); all other tenpy operations are mapped to the nearest of them in '
@@ -494,8 +498,17 @@ def main(ctx):
         'C03 documented sharing of block memory: Array.copy(deep=False), gauge_total_charge, sort_legcharge, replace_label(s), add_trivial_leg, '
         'astype(copy=False); MPS.get_B / MPO.get_W with copy=False, MPO.copy (shallow); MPS.get_SL/get_SR return the stored singular values '
         'themselves (plain accessors, no copy is claimed).  Every other common memory between a result and a live tensor is a violation',
+        'C03 mpo-object: the ORDER of the axes of a completely labelled stored tensor is representation, not value (tenpy addresses the legs '
+        'of W tensors by label; MPO.make_U_II, group_sites and _make_graph itranspose the stored W): the fingerprint of a labelled tensor is '
+        'taken in sorted-label order, calls that only reordered axes are counted in coverage.mpo_object_calls_that_only_reordered_axes_of_stored_tensors',
+        'C03 mpo-object: lazily computed private caches are not observable state: MPO._graph/_outer_permutation/_cycles, '
+        'MPOGraph._ordered_states, Lattice._mps_sites_cache, Model._rng; the identity (not the value) of the inner python lists of a '
+        'TermList is not judged (TermList.order_combine, called by MPOGraph.from_term_list, re-creates them)',
+        'C03 mpo-object: Model.copy() and MPO.copy() are documented shallow copies; in-place methods that write INTO shared containers '
+        '(MPO.set_W, Model.add_*, Model.enlarge_mps_unit_cell -> lattice) are exercised on deep copies, those that rebind the attributes of '
+        'the receiver (MPO.group_sites / sort_legcharges / enlarge_mps_unit_cell, Model.group_sites) on the shallow copy',
     ]
-    return ctx.finish(RULE + '  ' + c03_mpsobj.RULE, 'frame theorems on the store model for all heaps/aliasing patterns; every history is replayed on the model and judged by '
+    return ctx.finish(RULE + '  ' + c03_mpsobj.RULE + '  ' + c03_mpoobj.RULE, 'frame theorems on the store model for all heaps/aliasing patterns; every history is replayed on the model and judged by '
                       'fingerprints of all live objects in both configurations')
 
 
